@@ -54,7 +54,15 @@ var verifDir = func() string {
 	return "/verif"
 }()
 
-func buildDir() string { return filepath.Join(verifDir, "build") }
+// buildDir holds everything generated (ignored by git). VERIF_BUILD moves it,
+// so that a development build against a scratch tree (VERIF_REPO) does not
+// disturb a check that is running against /repo.
+func buildDir() string {
+	if d := os.Getenv("VERIF_BUILD"); d != "" {
+		return d
+	}
+	return filepath.Join(verifDir, "build")
+}
 
 func goEnv() []string {
 	env := os.Environ()
